@@ -335,6 +335,28 @@ theorem remarshal_parse_gen {β : Type} (T : Tables) (hT : T.OK) (C : BodyCodec 
       rw [hle, hb, hdec]
       exact ⟨_, rfl, rfl, rfl, her, has, f3, hattrs, rfl, hhdr.1, hhdr.2, rfl⟩
 
+/-- On attribute values of the shapes `AttrFwd` the forwarding call stays inside the encoder's fragment (its header list
+holds typed values only): `remarshalG = remarshal` applies (`remarshalG_eq`). -/
+theorem remarshal_ne_other_of_fwd {β : Type} (T : Tables) (hT : T.OK) (maxLen : Nat) (m : Msg β) (endian : Nat)
+    (rawBody : Bytes) (hok : ∀ a, AttrFwd a (m.attrs a)) : remarshal T maxLen m endian rawBody ≠ .error .other := by
+  obtain ⟨hs, fs, h1, _, h3, _⟩ := buildHeaders_fwd m.attrs hok (T.headerAttrs m.cls)
+  unfold remarshal
+  rw [h1]
+  dsimp only
+  rw [hT.format, if_neg (by simp [headerFormatStr])]
+  have hne := marshalHeader_ne_other T.align hT.align (endian == 108) (.int .plain (endian : Nat))
+    (.int .plain (T.messageType m.cls : Nat)) (.int .plain (flagsWith m.otherFlags m.expectReply m.autoStart : Nat))
+    (.int .plain (T.protocolVersion : Nat)) (.int .plain (rawBody.length : Nat)) (.int .plain (m.serial : Nat)) hs fs h3
+  generalize marshalHeader _ _ _ _ _ _ _ _ _ = r at hne
+  cases r with
+  | error x => simpa using hne
+  | ok b => dsimp only; split <;> simp
+
+theorem remarshalG_eq_of_fwd {β : Type} (T : Tables) (hT : T.OK) (hA : PadAgree T.align) (fuel maxLen : Nat) (m : Msg β)
+    (endian : Nat) (rawBody : Bytes) (hok : ∀ a, AttrFwd a (m.attrs a)) :
+    remarshalG T (fuel + 4) maxLen m endian rawBody = remarshal T maxLen m endian rawBody :=
+  remarshalG_eq T hT hA fuel maxLen m endian rawBody (remarshal_ne_other_of_fwd T hT maxLen m endian rawBody hok)
+
 /-! ### executable form of the hypotheses (for the driver's certification and for closed examples) -/
 
 theorem attrFwdB_sound (a : Attr) (v : PyVal) (h : attrFwdB a v = true) : AttrFwd a v := by
